@@ -173,6 +173,21 @@ class _Rename(ast.NodeTransformer):
         n.args = args
         return n
 
+    def visit_JoinedStr(self, n):
+        self.generic_visit(n)
+        # f"{'e'}" is 'e': a constant substituted into an f-string (typically a format spec given as an argument) becomes text
+        vals = []
+        for v in n.values:
+            if isinstance(v, ast.FormattedValue) and v.conversion == -1 and v.format_spec is None and isinstance(v.value, ast.Constant) \
+                    and isinstance(v.value.value, (str, int)) and not isinstance(v.value.value, bool):
+                v = ast.Constant(value=str(v.value.value))
+            if isinstance(v, ast.Constant) and vals and isinstance(vals[-1], ast.Constant):
+                vals[-1] = ast.Constant(value=vals[-1].value + v.value)
+            else:
+                vals.append(v)
+        n.values = vals
+        return n
+
     def visit_arg(self, n):
         # lambda parameters that shadow: handled by refusing such helpers (see _straight_line)
         return n
